@@ -16,6 +16,8 @@ import (
 type runCfg struct {
 	Mode     int  `json:"mode"`
 	ObsEvery bool `json:"obs_every"` // compare all observables with the model after every token (else only at structure tokens and at the end)
+	Cold     bool `json:"cold"`      // "cold" execution: no getter is called before the cold observation point (observations warm the object's caches and can hide a wrong read path); oracles: model at that point, roots at every IntermediateRoot/Commit, read-back after the last Commit
+	ColdTail int  `json:"cold_tail"` // the one cold observation is taken after token len(prog)-1-ColdTail (i.e. before the closing tokens)
 	ObsAddrs int  `json:"obs_addrs"` // observe the first ObsAddrs addresses of the universe (0 = all); stages whose alphabet names one address observe that one
 }
 
@@ -37,19 +39,21 @@ func (f *failure) class() string { return f.Oracle + ":" + f.Field }
 
 // global measured counters
 var (
-	cntPrograms    int64
-	cntInfeasible  int64
-	cntTransitions int64
-	cntObserves    int64
-	cntRevNontriv  int64
-	cntRevChecks   int64
-	cntRootChecks  int64
-	cntReadbacks   int64
-	cntCopyChecks  int64
-	cntFreshReplay int64
-	cntSnapProgs   int64
-	cntKind        [numKinds]int64
-	cntModelMoved  int64
+	cntPrograms     int64
+	cntInfeasible   int64
+	cntTransitions  int64
+	cntObserves     int64
+	cntRevNontriv   int64
+	cntRevChecks    int64
+	cntRootChecks   int64
+	cntReadbacks    int64
+	cntCopyChecks   int64
+	cntCrossBacking int64
+	cntColdProgs    int64
+	cntFreshReplay  int64
+	cntSnapProgs    int64
+	cntKind         [numKinds]int64
+	cntModelMoved   int64
 )
 
 type bystander struct {
@@ -118,6 +122,7 @@ func run(prog []Op, c runCfg, tr tracer) (fail *failure, feasible bool) {
 		fields, detail := diffObs(o, &mo)
 		return &failure{Oracle: oracle + sfx(), Field: fields[0], Detail: detail, Step: step}
 	}
+	wantObs := func() bool { return !c.Cold || step == len(prog)-1-c.ColdTail || step == len(prog)-1 }
 	clearRevs := func() {
 		revIDs, snapObs, msnaps, marks = revIDs[:0], snapObs[:0], msnaps[:0], marks[:0]
 	}
@@ -148,9 +153,12 @@ func run(prog []Op, c runCfg, tr tracer) (fail *failure, feasible bool) {
 		switch op.K {
 		case kSnapshot:
 			id := R.s.Snapshot()
-			o := obsReal(R.s)
-			if f := vsModel(&o, "observables-vs-model"); f != nil {
-				return f, true
+			var o Obs
+			if !c.Cold {
+				o = obsReal(R.s)
+				if f := vsModel(&o, "observables-vs-model"); f != nil {
+					return f, true
+				}
 			}
 			revIDs = append(revIDs, id)
 			snapObs = append(snapObs, o)
@@ -165,17 +173,25 @@ func run(prog []Op, c runCfg, tr tracer) (fail *failure, feasible bool) {
 				atomic.AddInt64(&cntRevNontriv, 1)
 			}
 			R.s.RevertToSnapshot(revIDs[k])
-			o := obsReal(R.s)
-			atomic.AddInt64(&cntRevChecks, 1)
-			if o != snapObs[k] {
-				fields, detail := diffObs(&o, &snapObs[k])
-				return &failure{Oracle: "revert-restores" + sfx(), Field: fields[0], Detail: "after RevertToSnapshot vs at Snapshot: " + detail, Step: step}, true
+			if !c.Cold {
+				o := obsReal(R.s)
+				atomic.AddInt64(&cntRevChecks, 1)
+				if o != snapObs[k] {
+					fields, detail := diffObs(&o, &snapObs[k])
+					return &failure{Oracle: "revert-restores" + sfx(), Field: fields[0], Detail: "after RevertToSnapshot vs at Snapshot: " + detail, Step: step}, true
+				}
 			}
 			m = msnaps[k]
 			eff = eff[:marks[k]]
 			revIDs, snapObs, msnaps, marks = revIDs[:k], snapObs[:k], msnaps[:k], marks[:k]
-			if tr != nil {
+			if tr != nil && !c.Cold {
 				tr("  step %d %s: observables equal those at the snapshot", step, op)
+			}
+			if c.Cold && wantObs() {
+				o := obsReal(R.s)
+				if f := vsModel(&o, "observables-vs-model(cold)"); f != nil {
+					return f, true
+				}
 			}
 			continue
 		case kFinalise:
@@ -220,22 +236,45 @@ func run(prog []Op, c runCfg, tr tracer) (fail *failure, feasible bool) {
 						Detail: fmt.Sprintf("root %x, fresh StateDB executing only the non-reverted operations [%s] %x", root, progString(eff), fr), Step: step}, true
 				}
 			}
+			if !wantObs() {
+				continue
+			}
 			atomic.AddInt64(&cntReadbacks, 1)
 			o := obsReal(R.s)
 			if f := vsModel(&o, "readback"); f != nil {
 				return f, true
+			}
+			if R.mode != modeTrie {
+				// cross-backing: the same root opened WITHOUT the snapshot tree must read the same
+				atomic.AddInt64(&cntCrossBacking, 1)
+				ts, err := state.New(root, R.db, nil)
+				if err != nil {
+					return &failure{Oracle: "snapshot-vs-trie" + sfx(), Field: "error", Detail: "state.New(root, db, nil): " + err.Error(), Step: step}, true
+				}
+				ot := obsReal(ts)
+				if ot != o {
+					fields, detail := diffObs(&o, &ot)
+					return &failure{Oracle: "snapshot-vs-trie" + sfx(), Field: fields[0], Detail: "StateDB reopened with the snapshot tree vs reopened trie-only at the same root: " + detail, Step: step}, true
+				}
 			}
 			noteState(&m)
 			continue
 		case kCopyC, kCopyO:
 			hadRC = true
 			cp := R.s.Copy()
-			oo := obsReal(R.s)
-			oc := obsReal(cp)
-			atomic.AddInt64(&cntCopyChecks, 1)
-			if oc != oo {
-				fields, detail := diffObs(&oc, &oo)
-				return &failure{Oracle: "copy-equals-original" + sfx(), Field: fields[0], Detail: "copy vs original right after Copy(): " + detail, Step: step}, true
+			var oo, oc Obs
+			if c.Cold {
+				// no getter is called; the bystander is later compared with what the model shows now
+				oo = m.obs(c.na())
+				oc = oo
+			} else {
+				oo = obsReal(R.s)
+				oc = obsReal(cp)
+				atomic.AddInt64(&cntCopyChecks, 1)
+				if oc != oo {
+					fields, detail := diffObs(&oc, &oo)
+					return &failure{Oracle: "copy-equals-original" + sfx(), Field: fields[0], Detail: "copy vs original right after Copy(): " + detail, Step: step}, true
+				}
 			}
 			if op.K == kCopyC {
 				bys = append(bys, bystander{s: R.s, obs: oo, m: m, midtx: midtx, which: "original"})
@@ -257,8 +296,17 @@ func run(prog []Op, c runCfg, tr tracer) (fail *failure, feasible bool) {
 			m.applyMutator(op)
 			eff = append(eff, op)
 		}
-		if tr != nil {
+		if tr != nil && !c.Cold {
 			tr("  step %d %-28s -> %s", step, op.String(), obsSummary(observe(R.s, c.na())))
+		}
+		if c.Cold {
+			if wantObs() {
+				o := obsReal(R.s)
+				if f := vsModel(&o, "observables-vs-model(cold)"); f != nil {
+					return f, true
+				}
+			}
+			continue
 		}
 		if c.ObsEvery || structural || step == len(prog)-1 {
 			o := obsReal(R.s)
